@@ -153,6 +153,19 @@ def show_fresh(s) -> str:
     return "(L" + "".join(" " + show_fresh(f) for f in s[1]) + ")"
 
 
+def show_in(s, v) -> str:
+    """the state of a fresh object of structure s after decoding v, where a record list may announce fewer members than the
+    structure defines: the remaining fields keep their fresh state (same printing as `showIn` of Drv/Codec.lean)"""
+    k = s[0]
+    t, xs = v
+    if k == "rec" and t == "L":
+        parts = [show_in(f, x) for f, x in zip(s[1], xs)] + [show_fresh(f) for f in s[1][len(xs):]]
+        return "(L" + "".join(" " + q for q in parts) + ")"
+    if k == "arr" and t == "L":
+        return "(L" + "".join(" " + show_in(s[1], x) for x in xs) + ")"
+    return show_val(v)
+
+
 def show_py(p) -> str:
     k = p[0]
     if k == "none":
@@ -248,6 +261,23 @@ def data_format(s):
         return [data_format(s[1])]          # nested arrays always have count -1 (that is all `generate` can build)
     n = _fresh_name("R")
     return [n] + [data_format(f) for f in s[1]] if s[1] else [n, n]     # (a one-element list would be an Array)
+
+
+def ctor_var(s, value):
+    """an object of structure s built with `value` as CONSTRUCTOR argument (not through a later set())"""
+    k = s[0]
+    if k == "any":
+        return ANYVALUE(value)
+    if k == "leaf":
+        return VARCLS[s[1]](value, count=s[2])
+    if k == "dyn":
+        return V.Dynamic([V.Array if g == "ARR" else VARCLS[g] for g in s[1]], value, count=s[2])
+    if k == "arr":
+        return V.Array(data_format(s[1]), value, count=s[2])
+    return V.List(data_format(s), value)
+
+
+NUL_TEXTS = [[0], [0, 0, 0], [65, 66, 0, 0, 0], [0, 65, 0], [0] * 16, [82, 69, 67, 0, 0, 0, 0, 0], [32, 0], [0, 0, 65]]
 
 
 def buildable(s) -> bool:
